@@ -69,6 +69,9 @@ class Path(object):
 
 
 def effect_of(e):
+    if e.kind == 'call' and e.term is not None and e.term[0] == 'call' and e.term[1] in canon.ENTRY_FNS and len(e.term[2]) == 2:
+        # looking a key up through the entry API is, as an effect, the presence test it stands for
+        return '%s::contains_key(%s, %s)' % (e.term[1].rsplit('::', 1)[0], S.show(e.term[2][0]), S.show(e.term[2][1]))
     if e.kind in ('call', 'callvalue'):
         return S.show(e.term)
     if e.kind == 'assign':
